@@ -24,21 +24,41 @@ REWRITES = [
 ]
 
 
+# Rewrites that could not be applied to the tree under test in this run (pattern found 0 or > 1 times, file
+# missing): the check carries on with the unmodified tick period. That only costs time (a virtual hour then
+# fires tens of thousands of timers per open shard); the run may be cut by its deadline (exhaustive:false,
+# exit 0). Reported in the evidence (coverage.tick_rewrites_skipped, counters.tick_rewrites_skipped).
+SKIPPED = []
+
+
 def overlay_extra(cid, tier):
     bd = os.path.join(checklib.build_dir(cid), "rewritten")
     os.makedirs(bd, exist_ok=True)
-    texts = {}
+    del SKIPPED[:]
+    texts, changed = {}, set()
     for rel, pat, repl in REWRITES:
         src = os.path.join(checklib.REPO, rel)
         s = texts.get(rel)
         if s is None:
-            s = open(src).read()
+            try:
+                s = open(src).read()
+            except OSError as e:
+                SKIPPED.append("%s: %s (cannot read: %s)" % (rel, repl, e))
+                checklib.log("C14 tick rewrite skipped: cannot read %s: %s" % (rel, e))
+                continue
+            texts[rel] = s
         s2, n = re.subn(pat, repl, s)
         if n != 1:
-            checklib.tool_error("C14 constant rewrite: pattern %r matched %d times in %s" % (pat, n, rel))
+            SKIPPED.append("%s: pattern %r found %d times, wanted '%s'" % (rel, pat, n, repl))
+            checklib.log("C14 tick rewrite skipped: pattern %r found %d times in %s; the tick period of the tree is used "
+                         "(slower; the run may be cut by its deadline)" % (pat, n, rel))
+            continue
         texts[rel] = s2
+        changed.add(rel)
     out = {}
     for rel, s in texts.items():
+        if rel not in changed:
+            continue
         dst = os.path.join(bd, rel.replace("/", "__"))
         with open(dst, "w") as fh:
             fh.write(s)
@@ -123,8 +143,15 @@ def run(tier, replay):
         dl = int(os.environ.get("VERIF_DEADLINE_S", SPEC["deadline"][tier]))
         reps = checklib.run_workers(cid, binp, SPEC["test"], tier, SPEC["workers"], dl, scratch, extra_env=SPEC["env"])
         depth = max((r.get("counters") or {}).get("max_depth", 0) for r in reps)
-        return checklib.finish(cid, tier, SPEC["level"], SPEC["rule"], reps, t0, SPEC["assumptions"], model=True,
-                               extra_cov={"bound": {"history_len": depth, "alphabet": "15 operations + fault variants of the retention run "
+        assumptions = list(SPEC["assumptions"])
+        if reps:
+            (reps[0].setdefault("counters", {}))["tick_rewrites_skipped"] = len(SKIPPED)
+        if SKIPPED:
+            assumptions.append("THIS RUN: %d of %d tick-period rewrites could not be applied to the tree under test (%s); the tree's own "
+                               "tick period was used there, which only makes the virtual clock more expensive"
+                               % (len(SKIPPED), len(REWRITES), "; ".join(SKIPPED)))
+        return checklib.finish(cid, tier, SPEC["level"], SPEC["rule"], reps, t0, assumptions, model=True,
+                               extra_cov={"tick_rewrites_skipped": list(SKIPPED), "bound": {"history_len": depth, "alphabet": "15 operations + fault variants of the retention run "
                                                     "(H!1..H!n for the n catalogue calls the run makes, H!S H!I H!DSG H!DIG H!PG, H!*)",
                                                     "faulted_runs_per_history": 1, "roots": 6,
                                                     "durations": ["0", "G/2 (refused by the catalogue)", "G", "2G"],
